@@ -193,19 +193,24 @@ def define_entities(db):
 
 
 def make_template(path):
-    from pony.orm import Database, db_session
+    """schema from Pony's DDL text, rows inserted with plain sqlite3: no Pony session is involved in the setup"""
+    import sqlite3
+    from pony.orm import Database
     for p in (path, path + '-journal'):
         if os.path.exists(p):
             os.remove(p)
     db = Database()
-    E = define_entities(db)
-    db.bind('sqlite', path, create_db=True)
-    db.generate_mapping(create_tables=True)
-    with db_session:
-        E['A'](v=1)
-        E['A'](v=2)
-        E['B'](id=1, s='x')
-    db.disconnect()
+    define_entities(db)
+    db.bind('sqlite', ':memory:')
+    db.generate_mapping(check_tables=False, create_tables=False)
+    script = db.schema.generate_create_script()
+    con = sqlite3.connect(path)
+    con.executescript(script)
+    con.execute('insert into "A" ("v") values (1)')
+    con.execute('insert into "A" ("v") values (2)')
+    con.execute('insert into "B" ("id", "s") values (1, \'x\')')
+    con.commit()
+    con.close()
     return path
 
 
@@ -463,7 +468,6 @@ def run_script_case(template, path, script, plan, info=None):
                 info.setdefault('outcomes', []).append(None if exc is None else type(exc).__name__)
                 if exc is not None and not faultdb.is_injected(exc) and not isinstance(exc, RuntimeError):
                     info.setdefault('natural_errors', []).append('%s: %s' % (type(exc).__name__, str(exc)[:100]))
-            env.cleanup_thread()
             msg = check_thread_state(env, 'after session %d (%s, end=%s%s) which ended with %s'
                                      % (si, sess['kind'], sess.get('end', 'commit'), ', cold' if sess.get('cold') else '',
                                         'no error' if exc is None else '%s: %s' % (type(exc).__name__, str(exc)[:80])))
@@ -496,7 +500,6 @@ def run_actors_case(template, path, actors, schedule, plan, info=None):
                     except WouldBlock as e:
                         results[i] = '%s would block for ever: %s' % (lab, e)
                         return
-                    env.cleanup_thread()
                     msg = check_thread_state(env, 'after %s which ended with %s'
                                              % (lab, 'no error' if exc is None else '%s: %s' % (type(exc).__name__, str(exc)[:80])))
                     if msg:
